@@ -20,6 +20,16 @@ use tet::utils::Ptr;
 
 pub struct C09;
 
+/// A tetris outline with bounding box (sx, sy): rectangular for i % 3 == 0, otherwise 2 or 3 steps (x non-increasing from sx, y non-decreasing up to sy).
+/// Placement only ever uses the bounding box, so the reference model is unchanged by the steps.
+fn stepped_outline(i: usize, sx: isize, sy: isize) -> Outline {
+    let k = 1 + (i % 3) as isize;
+    let (dx, dy) = (sx / (k + 1), sy / (k + 1));
+    let x: Vec<isize> = (0..k).map(|j| sx - j * dx).collect();
+    let y: Vec<isize> = (0..k).map(|j| sy - (k - 1 - j) * dy).collect();
+    Outline::new(&x, &y).unwrap()
+}
+
 #[derive(Clone, Debug)]
 enum Sep {
     None,
@@ -116,7 +126,7 @@ fn expected(p: &Program) -> Vec<(i64, i64)> {
 /// Build the library with instances listed in `order`
 fn build(p: &Program, order: &[usize]) -> (Library, Vec<Ptr<Instance>>) {
     let mut lib = Library::new("plib");
-    let cells: Vec<Ptr<Cell>> = p.sizes.iter().enumerate().map(|(i, s)| lib.cells.add(Layout::new(format!("unit{}", i), 0, Outline::rect(s.0 as isize, s.1 as isize).unwrap()))).collect();
+    let cells: Vec<Ptr<Cell>> = p.sizes.iter().enumerate().map(|(i, s)| lib.cells.add(Layout::new(format!("unit{}", i), 0, stepped_outline(i, s.0 as isize, s.1 as isize)))).collect();
     let insts: Vec<Ptr<Instance>> = p
         .specs
         .iter()
@@ -321,7 +331,7 @@ impl Prop for C09 {
                 cx.eval();
                 let size = (cx.rng.range(1, 30) as isize, cx.rng.range(1, 30) as isize);
                 let mut lib = Library::new("alib");
-                let unit = lib.cells.add(Layout::new("unit", 0, Outline::rect(size.0, size.1).unwrap()));
+                let unit = lib.cells.add(Layout::new("unit", 0, stepped_outline(cx.n as usize, size.0, size.1)));
                 let count = 1 + cx.rng.usize(6);
                 let pitch = (cx.rng.range(-40, 40) as isize, cx.rng.range(-40, 40) as isize);
                 let sep = |p: (isize, isize)| Separation::new(if p.0 != 0 { Some(SepBy::UnitSpeced(UnitSpeced::PrimPitches(PrimPitches::x(p.0)))) } else { None }, if p.1 != 0 { Some(SepBy::UnitSpeced(UnitSpeced::PrimPitches(PrimPitches::y(p.1)))) } else { None }, None);
